@@ -620,8 +620,14 @@ func schedWorker(res *core.Result, r *core.RNG, tier, out string) error {
 		if err := schedSyncVsRotate(res, r.Fork()); err != nil {
 			return err
 		}
+		// sixteen simultaneous, correctly signed registrations with different keys: one winner
+		if rs, err := registerRaceTour(res, r.Fork()); err != nil {
+			return err
+		} else {
+			rs.finish(&items)
+		}
 	}
-	res.Required = []string{"sched.inject:ban-captured-device", "sched.inject:rotate", "sched.burst", "sched.ban-in-flight", "sched.mix", "sched.list-vs-sync", "sched.sync-vs-rotate"}
+	res.Required = []string{"sched.inject:ban-captured-device", "sched.inject:rotate", "sched.burst", "sched.ban-in-flight", "sched.mix", "sched.list-vs-sync", "sched.sync-vs-rotate", "register.concurrent-batch"}
 	res.Rule = "injection of every menu operation between the impact job's two critical sections (compared with the model); bursts of distinct reports back to back on the real UDP socket (every slot must hold its report); devices banned while their datagrams are in flight on the real socket; many-goroutine mix of UDP reports, statistics (with insert_false_negatives), equipment, archive, sync, recent-reports requests and impact rounds, judged against the order-independent report rule; devices syncing while ten week rotations run (every reply must be a snapshot); announcements of new authorized servers against devices syncing in a loop with a liveness probe; (mix) judged against the order-independent report rule; -race build in the thorough tier"
 	return writeServerCases(res, out, "sched", items)
 }
